@@ -81,8 +81,22 @@ def make(pid, algos, quick_per_algo=12, thorough_per_algo=150, forces=None, salt
         mism, n_ops = fw.compare(cases)
         return {"cases": cases, "mism": mism, "n_ops": n_ops}
 
-    def search(tier, seed, n):
-        return run_cases(specs(seed, 4 * n, extra_salt=7919))
+    def search(tier, seed, n, hint=None):
+        sp = specs(seed, 4 * n, extra_salt=7919)
+        # next to the divergent cases: same algorithm and reward regime (and, every other case, the same partition class),
+        # fresh configuration, geometry and history
+        seen = []
+        for m in hint or []:
+            k = (m.get("algo"), m.get("rmode"), m.get("kind"))
+            if m.get("gen") == "algo" and k not in seen and k[0] in algos:
+                seen.append(k)
+        for j, (a, rm, kd) in enumerate(seen[:6]):
+            for i in range(60):
+                f = {"rmode": rm}
+                if i % 2 and kd:
+                    f["kind"] = kd
+                sp.append((seed + salt + 104729 + j, i + 200000, a, f))
+        return run_cases(sp)
 
     def replay(path):
         r = json.load(open(path))
